@@ -34,6 +34,15 @@ Select.vos Select.vok Select.required_vos: Select.v Graph.vos
 SelectFacts.vo SelectFacts.glob SelectFacts.v.beautified SelectFacts.required_vo: SelectFacts.v Graph.vo GraphFacts.vo Select.vo
 SelectFacts.vio: SelectFacts.v Graph.vio GraphFacts.vio Select.vio
 SelectFacts.vos SelectFacts.vok SelectFacts.required_vos: SelectFacts.v Graph.vos GraphFacts.vos Select.vos
+GraphCheck.vo GraphCheck.glob GraphCheck.v.beautified GraphCheck.required_vo: GraphCheck.v Graph.vo Priority.vo Select.vo
+GraphCheck.vio: GraphCheck.v Graph.vio Priority.vio Select.vio
+GraphCheck.vos GraphCheck.vok GraphCheck.required_vos: GraphCheck.v Graph.vos Priority.vos Select.vos
+Dataflow.vo Dataflow.glob Dataflow.v.beautified Dataflow.required_vo: Dataflow.v Graph.vo Sched.vo
+Dataflow.vio: Dataflow.v Graph.vio Sched.vio
+Dataflow.vos Dataflow.vok Dataflow.required_vos: Dataflow.v Graph.vos Sched.vos
+Terms.vo Terms.glob Terms.v.beautified Terms.required_vo: Terms.v Graph.vo Sched.vo Dataflow.vo
+Terms.vio: Terms.v Graph.vio Sched.vio Dataflow.vio
+Terms.vos Terms.vok Terms.required_vos: Terms.v Graph.vos Sched.vos Dataflow.vos
 Properties/C02.vo Properties/C02.glob Properties/C02.v.beautified Properties/C02.required_vo: Properties/C02.v Graph.vo Sched.vo SchedInv.vo SchedGhost.vo
 Properties/C02.vio: Properties/C02.v Graph.vio Sched.vio SchedInv.vio SchedGhost.vio
 Properties/C02.vos Properties/C02.vok Properties/C02.required_vos: Properties/C02.v Graph.vos Sched.vos SchedInv.vos SchedGhost.vos
